@@ -180,6 +180,25 @@ Theorem C16_site_line : forall st, In st splice_sites -> s_kind st = KRepr \/ s_
 Proof. exact site_line. Qed.
 Print Assumptions C16_site_line.
 
+(* library text (field names, method names, class names, named-tuple keys) placed INSIDE static
+   string literals of the templates: every such placeholder of /repo has a plain origin by K10's
+   rules and plain surroundings, and for plain text the literal denotes before ++ text ++ after *)
+Theorem C16_ident_sites : forallb isite_ok ident_sites = true.
+Proof. exact ident_sites_ok. Qed.
+Print Assumptions C16_ident_sites.
+
+Theorem C16_ident_site : forall st, In st ident_sites ->
+  forall q t rest, codes (i_quote st) = [q] ->
+  Forall (fun c => plain_char c = true) t -> ctx_ok rest = true ->
+  is_quote q = true /\
+  lex_string (q :: (codes (i_before st) ++ t ++ codes (i_after st)) ++ q :: rest)
+  = Some (codes (i_before st) ++ t ++ codes (i_after st), rest).
+Proof. exact ident_site. Qed.
+Print Assumptions C16_ident_site.
+
+Example C16_nonvacuous_ident : Nat.leb 20 (List.length ident_sites) = true.
+Proof. vm_compute. reflexivity. Qed.
+
 (* the D6 injection seen from the line: the raw splice yields TWO string tokens and code between them *)
 Example C16_line_injection :
   literals (codes "value = d.get('x', MISSING) or f() or d.get('x', MISSING)")
